@@ -365,10 +365,10 @@ func genBerHostile(o genOpts, w *bufio.Writer) {
 			return v
 		}
 		bads := []func() reflect.Value{
-			func() reflect.Value { return reflect.New(ch).Elem() },                           // Present 0
-			func() reflect.Value { v := good(); v.Field(0).SetInt(4); return v },             // past the last alternative
-			func() reflect.Value { v := good(); v.Field(0).SetInt(-1); return v },            // negative
-			func() reflect.Value { v := good(); v.Field(0).SetInt(2); return v },             // nil alternative selected
+			func() reflect.Value { return reflect.New(ch).Elem() },                                                   // Present 0
+			func() reflect.Value { v := good(); v.Field(0).SetInt(4); return v },                                     // past the last alternative
+			func() reflect.Value { v := good(); v.Field(0).SetInt(-1); return v },                                    // negative
+			func() reflect.Value { v := good(); v.Field(0).SetInt(2); return v },                                     // nil alternative selected
 			func() reflect.Value { v := good(); v.Field(0).SetInt(3); v.Field(3).SetBytes([]byte{42, 3}); return v }, // OID
 		}
 		lt := reflect.SliceOf(ch)
